@@ -1,3 +1,3 @@
 SPECIFICATION Spec
-CONSTANTS MaxLen = 3  MaxLen2 = 3  MaxLen3 = 3  MaxLen4 = 0  Shrinking = FALSE  MaxPass = 12  Origin = 252
+CONSTANTS MaxLen = 3  MaxLen2 = 3  MaxLen3 = 3  MaxLen4 = 0  MaxLen5 = 0  Shrinking = FALSE  MaxPass = 12  Origin = 252
 INVARIANT NeverFourPasses
